@@ -19,6 +19,9 @@ def _acqs(P, b, field):
     return {bb: a for bb, a in acqs.items() if _cell_hits(P, b, a["cell"], field)}, held, sh
 
 
+CALL_J = 1 << 20        # statement index of a store made by the block's terminator call
+
+
 def _stores(P, b, field):
     """[(bb, idx, valuekind)] of stores through a guard of `field`; valuekind: 'true'/'false'/
     'Some'/'None'/'?'"""
@@ -38,6 +41,12 @@ def _stores(P, b, field):
                 elif rv["k"] == "agg":
                     kind = rv.get("variant", "?")
                 out.append((i, j, kind))
+    # the same store spelled as a method of the slot's Option: replace/insert put Some(..), take puts None
+    for c in b.calls:
+        k = {"std::option::Option::replace": "Some", "std::option::Option::insert": "Some",
+             "std::option::Option::get_or_insert": "Some", "std::option::Option::take": "None"}.get(c.path)
+        if k and c.args and _cell_hits(P, b, b.operand_prov(c.args[0]), field):
+            out.append((c.bb, CALL_J, k))
     return out
 
 
@@ -85,7 +94,7 @@ def w_rules(P, E):
         if not any(k == "Some" for (_, _, k) in ws):
             r.violate(("W1", poll.nid, "waker never stored"), "poll does not store the waker when pending", body=poll)
         for (i, j, k) in ws:
-            hs = sh[i][j] if i in sh and j < len(sh[i]) else set()
+            hs = held.get(i, set()) if j >= CALL_J else (sh[i][j] if i in sh and j < len(sh[i]) else set())
             if a0 not in hs:
                 r.violate(("W1", poll.nid, "waker stored outside the guard"), "the waker store is not under the write guard "
                           "that was held at the done test", body=poll)
